@@ -23,8 +23,9 @@ Check lu_spec : forall (A : Arith), FieldLaws A -> PivLaws A -> forall M : matri
       mprod (rows M) (ent P) (ent M) r c = mprod (rows M) (unit_lower LU) (upper LU) r c.
 Print Assumptions lu_spec.
 (* non-vacuity: the laws hold at Qc and a 3x3 rational matrix with a zero leading entry meets the hypotheses and needs two exchanges *)
-Example lu_spec_nonvacuous : PivLaws AQ /\ wf M3 /\ rows M3 = cols M3 /\ exists LU P, lu_decomp M3 = Ok (LU, 2, P).
-Proof. split; [exact AQ_PivLaws|]. split; [reflexivity|]. split; [reflexivity|]. eexists; eexists. vm_compute. reflexivity. Qed.
+Example lu_spec_nonvacuous : PivLaws AQ /\ wf M3 /\ rows M3 = cols M3 /\
+  (match lu_decomp M3 with Ok (_, piv, _) => piv =? 2 | Panic _ => false end) = true.
+Proof. split; [exact AQ_PivLaws|]. split; [reflexivity|]. split; [reflexivity|]. vm_compute. reflexivity. Qed.
 
 (* inverse: whatever it returns is a right inverse (a zero pivot makes the code panic on the exact types: then there is no N).
    The left-inverse half (inverse_two_sided) is in Bridge (mathcomp, mulmx1C). *)
@@ -38,8 +39,8 @@ Check inverse_right : forall (A : Arith), FieldLaws A -> PivLaws A -> forall M N
   shape N (rows M) (rows M) /\
   forall i j, i < rows M -> j < rows M -> mprod (rows M) (ent M) (ent N) i j = delta i j.
 Print Assumptions inverse_right.
-Example inverse_right_nonvacuous : wf M3 /\ rows M3 = cols M3 /\ exists N, inverse M3 = Ok N.
-Proof. split; [reflexivity|]. split; [reflexivity|]. eexists. vm_compute. reflexivity. Qed.
+Example inverse_right_nonvacuous : wf M3 /\ rows M3 = cols M3 /\ is_ok (inverse M3) = true.
+Proof. split; [reflexivity|]. split; [reflexivity|]. vm_compute. reflexivity. Qed.
 
 (* the LU half of C01 (pinned in Props/C01.v by the coordinator): solve_lu is sound *)
 Theorem solve_lu_sound_c02 : forall (A : Arith), FieldLaws A -> PivLaws A -> forall (M : matrix A) (b x : list A),
@@ -52,5 +53,47 @@ Check solve_lu_sound_c02 : forall (A : Arith), FieldLaws A -> PivLaws A -> foral
   length x = rows M /\
   forall i, i < rows M -> mvprod (rows M) (ent M) (fun k => nth k x zero) i = nth i b zero.
 Print Assumptions solve_lu_sound_c02.
-Example solve_lu_sound_nonvacuous : wf M3 /\ rows M3 = cols M3 /\ exists x, solve_lu M3 b3 = Ok x.
-Proof. split; [reflexivity|]. split; [reflexivity|]. eexists. vm_compute. reflexivity. Qed.
+Example solve_lu_sound_nonvacuous : wf M3 /\ rows M3 = cols M3 /\ length b3 = rows M3 /\ is_ok (solve_lu M3 b3) = true.
+Proof. split; [reflexivity|]. split; [reflexivity|]. split; [reflexivity|]. vm_compute. reflexivity. Qed.
+
+(* ---------- the mathcomp half (Bridge/Det.v, Bridge/Inv.v): the model's determinant IS \det ---------- *)
+(* For every mathcomp fieldType F (mathcomp's rat included) with any abs/ltb meeting PivLaws, the arithmetic ArithOf F abs ltb leb
+   (div x y = Panic DivZero when y == 0, else x / y) inherits FieldLaws, and the code's determinant of the matrix with entries f i j
+   is mathcomp's \det -- for EVERY square matrix: hence the sign rule under any number of exchanges, multiplicativity, and the value 0
+   on singular input are mathcomp's theorems about \det (det_perm, det_mulmx, det0P).  tabulate n n f is the flat row-major buffer
+   the code stores (Proofs/LUTab.v: every wf matrix is tabulate of its entries). *)
+From OV Require Import Proofs.LUTab Bridge.Det Bridge.Inv.
+From mathcomp Require Import all_ssreflect all_algebra.
+Local Open Scope ring_scope.
+
+Theorem determinant_is_det : forall (F : fieldType) (abs : F -> F) (ltb leb : F -> F -> bool),
+  PivLaws (ArithOf F abs ltb leb) -> forall (n : nat) (f : nat -> nat -> F),
+  @Solve.determinant (ArithOf F abs ltb leb) (@tabulate (ArithOf F abs ltb leb) n n f) = Ok (\det (\matrix_(i < n, j < n) f i j)).
+Proof. intros F abs ltb leb PL n f. exact (determinant_is_det_lemma PL n f). Qed.
+Check determinant_is_det : forall (F : fieldType) (abs : F -> F) (ltb leb : F -> F -> bool),
+  PivLaws (ArithOf F abs ltb leb) -> forall (n : nat) (f : nat -> nat -> F),
+  @Solve.determinant (ArithOf F abs ltb leb) (@tabulate (ArithOf F abs ltb leb) n n f) = Ok (\det (\matrix_(i < n, j < n) f i j)).
+Print Assumptions determinant_is_det.
+Example determinant_is_det_nonvacuous : PivLaws ratArith.
+Proof. exact rat_PivLaws. Qed.
+
+Theorem inverse_two_sided : forall (F : fieldType) (abs : F -> F) (ltb leb : F -> F -> bool),
+  PivLaws (ArithOf F abs ltb leb) -> forall M N : Matrix.matrix (ArithOf F abs ltb leb),
+  wf M -> rows M = cols M -> @Solve.inverse (ArithOf F abs ltb leb) M = Ok N ->
+  @LUPrim.shape (ArithOf F abs ltb leb) N (rows M) (rows M) /\
+  (forall i j, (i < rows M)%coq_nat -> (j < rows M)%coq_nat ->
+     @mprod (ArithOf F abs ltb leb) (rows M) (@ent _ M) (@ent _ N) i j = @delta (ArithOf F abs ltb leb) i j) /\
+  (forall i j, (i < rows M)%coq_nat -> (j < rows M)%coq_nat ->
+     @mprod (ArithOf F abs ltb leb) (rows M) (@ent _ N) (@ent _ M) i j = @delta (ArithOf F abs ltb leb) i j).
+Proof. intros F abs ltb leb PL M N. exact (inverse_two_sided_lemma PL (M:=M) (N:=N)). Qed.
+Check inverse_two_sided : forall (F : fieldType) (abs : F -> F) (ltb leb : F -> F -> bool),
+  PivLaws (ArithOf F abs ltb leb) -> forall M N : Matrix.matrix (ArithOf F abs ltb leb),
+  wf M -> rows M = cols M -> @Solve.inverse (ArithOf F abs ltb leb) M = Ok N ->
+  @LUPrim.shape (ArithOf F abs ltb leb) N (rows M) (rows M) /\
+  (forall i j, (i < rows M)%coq_nat -> (j < rows M)%coq_nat ->
+     @mprod (ArithOf F abs ltb leb) (rows M) (@ent _ M) (@ent _ N) i j = @delta (ArithOf F abs ltb leb) i j) /\
+  (forall i j, (i < rows M)%coq_nat -> (j < rows M)%coq_nat ->
+     @mprod (ArithOf F abs ltb leb) (rows M) (@ent _ N) (@ent _ M) i j = @delta (ArithOf F abs ltb leb) i j).
+Print Assumptions inverse_two_sided.
+Example inverse_two_sided_nonvacuous : PivLaws ratArith /\ wf R2 /\ rows R2 = cols R2 /\ is_ok (@Solve.inverse ratArith R2) = true.
+Proof. split; [exact rat_PivLaws|]. split; [reflexivity|]. split; [reflexivity|]. vm_compute. reflexivity. Qed.
